@@ -28,7 +28,10 @@ from vlib.gridmodel import GridModel
 PID = 'C12'
 LEVEL = 'exploration'
 BUDGET_S = {'quick': 40, 'thorough': 600}
-FLOORS = {'quick': {}, 'thorough': {}}
+FLOORS = {'quick': {'tasks': 530, 'must_remove_checked': 5500, 'must_keep_checked': 14000,
+                    'foreign_files_checked': 8000, 'strategy_directory_walk': 70, 'strategy_bulk_delete': 100,
+                    'strategy_tile_walk': 330},
+          'thorough': {}}
 RULE = ("case = one cleanup task: backend (file x 6 layouts, sqlite, mbtiles +-timestamps, geopackage +-levels, "
         "compact v1/v2) populated at 3-5 levels with <=60 tiles around the coverage, timestamps T+{-1e6,-3600,-2,"
         "+2,+3600}, foreign files next to it; mapproxy.yaml + seed.yaml (levels list/range/from/to/all, "
@@ -184,11 +187,13 @@ def build_case(run, spec):
         ['full', 'bbox_same', 'bbox_other', 'poly_same', 'poly_other', 'edge_coarse', 'straddle_coarse'],
         [36, 18, 11, 12, 10, 8, 5])[0]
     full = cov_class == 'full'
-    full_walk = full and backend == 'file' and layout == 'reverse_tms'
-    if layout == 'quadkey':
-        gname = rng.choice(POW2_GRIDS)
-    elif full_walk:
+    # layouts without a level directory fall back to (or, for quadkey, should fall back to) a walk over every
+    # tile of the selected levels: keep those levels shallow
+    full_walk = full and backend == 'file' and layout in ('reverse_tms', 'quadkey')
+    if full_walk:
         gname = 'sm'
+    elif layout == 'quadkey':
+        gname = rng.choice(POW2_GRIDS)
     elif cov_class in ('edge_coarse', 'straddle_coarse'):
         gname = rng.choice(['gm', 'gw', 'gg', 'ut'])
     else:
@@ -760,8 +765,10 @@ def _execute(run, case, d):
     if case.get('two_grids'):
         g2 = 'g2a' if gsrs != 'EPSG:4326' else 'g2b'
 
+    taken = []
+
     def mech(obs, **kw):
-        m = {'backend': backend, 'layout': layout, 'strategy': strategy, 'obs': obs}
+        m = {'backend': backend, 'layout': layout, 'strategy': taken[0] if taken else strategy, 'obs': obs}
         m.update(kw)
         return m
 
@@ -1006,7 +1013,6 @@ def _execute(run, case, d):
     lo, hi, slack = coverage_geoms(cov, gsrs)
 
     # -- run it
-    taken = []
     exc = None
     if rejected is None:
         origs = {}
@@ -1037,6 +1043,7 @@ def _execute(run, case, d):
             run.hit('strategy_' + s)
         if taken and taken[0] != strategy:
             run.count('strategy_differs_from_inference')
+            strategy = taken[0]
     else:
         run.count('config_rejected_timeless_remove_before')
     run.hit('tasks')
@@ -1184,8 +1191,8 @@ def gen_cases(run):
                 if b in TIMELESS and rbk == 'time':
                     continue
                 force = {'cov_class': covc, 'rb': rbk, 'shape': 'list'}
-                if covc == 'full' and not (b == 'file' and lay == 'reverse_tms'):
-                    force['grid'] = 'gm' if lay == 'quadkey' or b != 'file' else 'gw'
+                if covc == 'full' and not (b == 'file' and lay in ('reverse_tms', 'quadkey')):
+                    force['grid'] = 'gm' if b != 'file' else 'gw'
                     force['populated'] = [0, 1, 2, 3, 10, 11]
                     force['levels_conf'] = [1, 2, 10]
                 yield {'i': i, 'backend': b, 'layout': lay, 'force': force}
